@@ -6,6 +6,7 @@ import (
 	"sort"
 	"time"
 
+	"github.com/pokt-network/pocket-core/codec"
 	pc "github.com/pokt-network/pocket-core/x/pocketcore/types"
 	"golang.org/x/crypto/blake2b"
 
@@ -320,6 +321,76 @@ func init() {
 			c.Rule = fmt.Sprintf("for every relay count 5..%d x every index x both hashing schemes: every single-field alteration (6 leaf fields, replacement by every other committed leaf, every other index inside the tree and the same path outside it, each sibling's hash / lower / upper +-1, swapped siblings, target hash and range, root hash / upper / lower, level count) must fail verification; multisets with 1-3 duplicated relays at several positions: every leaf whose path crosses a zero-width range (computed from the documented range construction) must give (invalid, replay)", maxN)
 			c.Assume("zero-width paths are derived from a reference range model in the harness (leaf i covers [upper(i-1), upper(i)), parents cover their children, padding leaves have width 1)")
 			c30Run(c, maxN)
-			c.BoundDone = fmt.Sprintf("n=5..%d all indices all mutations; duplicate sets over n in {5,6,8,11}", maxN)
-		}})
+			// application layer: the same zero-width paths delivered as claim + proof transactions to the real application
+			c.Rule += "; application layer: claims whose evidence is {n copies of one relay, every relay twice} x n in {6,8} x replay-feature activation {long ago, between session start and proof, exactly at the proof height}, claimed and then proved (at the index the chain selects) in blocks of the real application: the proof transaction is refused and pays nothing, with the replay-attack error whenever it reaches the proof handler (a zero-width target is already refused by the stateless message check); the same flow without duplicates is accepted (control)"
+			runChainCases(c, "replay", c30ChainCases())
+			getPool().Close()
+			c.BoundDone = fmt.Sprintf("n=5..%d all indices all mutations; duplicate sets over n in {5,6,8,11}; application layer 2 duplicate shapes x 2 sizes x 3 activation heights + controls", maxN)
+		},
+		Replay: caseReplayFn(func(spec, name string) *chainCase {
+			for _, cs := range c30ChainCases() {
+				if cs.Name == name {
+					x := cs
+					return &x
+				}
+			}
+			return nil
+		})})
+}
+
+// c30ChainCases: replayed relays at the application layer. Session 80001 (blocks 80001-80002) is claimed at 80003 and
+// proved at 80005 (claim submission window 2 sessions). With duplicated relays every index the chain can select lies
+// on a path through a zero-width range (duplicates sort next to each other: the second of each pair has width 0 and is
+// the sibling of the first), so the proof must be reported as a replay whatever the entropy block says.
+func c30ChainCases() []chainCase {
+	var cases []chainCase
+	type feat struct {
+		name string
+		at   int64
+	}
+	for _, f := range []feat{{"active-long-ago", 0}, {"activated-after-session-start", 80004}, {"activated-at-proof-height", 80005}} {
+		env := claimsEnv()
+		if f.at != 0 {
+			env.FeatureAt = map[string]int64{codec.ReplayBurnKey: f.at}
+		}
+		for _, dup := range []string{"", "all", "pairs"} {
+			for _, n := range []string{"6", "8"} {
+				f, dup, n := f, dup, n
+				if dup == "" && n == "8" {
+					continue
+				}
+				pre := []BlockSpec{{}, {}, blk(tx("claim", "N1", "session", "cur-1", "relays", n, "dup", dup)), {}}
+				p := tx("proof", "N1", "session", "cur-2", "relays", n, "dup", dup)
+				cases = append(cases, chainCase{Name: fmt.Sprintf("replay/%s/dup-%s/n%s", f.name, boolStr(dup == "", "none", dup), n), Class: "replay-" + boolStr(dup == "", "control", "dup"), Env: env, Want: []string{"balances", "claims"},
+					Ref: append(append([]BlockSpec{}, pre...), BlockSpec{}), Subject: append(append([]BlockSpec{}, pre...), blk(p)),
+					Oracle: func(r, s JobResult) (string, string) {
+						claimTx := TxRes{Code: 999}
+						if len(s.Blocks) >= 3 && len(s.Blocks[2].Txs) == 1 {
+							claimTx = s.Blocks[2].Txs[0]
+						}
+						d := balanceDelta(r, s)
+						desc := fmt.Sprintf("claim over %s relays (duplicates: %s) for session 80001 accepted with code %d at 80003; proof at 80005 with the replay feature %s: result code %d (%s), balance changes against the run without the proof %s", n, boolStr(dup == "", "none", dup), claimTx.Code, f.name, lastTx(s).Code, lastTx(s).Log, deltaStr(d))
+						if claimTx.Code != 0 {
+							return "harness:claim", "the claim of the scenario was not accepted: " + desc
+						}
+						if dup == "" {
+							if lastTx(s).Code != 0 || d["N1"] <= 0 {
+								return "harness:control", "the control proof (no duplicates) was not accepted and paid: " + desc
+							}
+							return "", ""
+						}
+						if lastTx(s).Code == 0 || d["N1"] > 0 {
+							return "replayed-relays-paid", desc
+						}
+						// 89: the stateless message check already refuses a proof whose own target range has zero width; every
+						// proof that reaches the proof handler (zero-width sibling on the path) must come back as a replay
+						if lastTx(s).Code != 86 && lastTx(s).Code != 89 {
+							return "replay-not-reported-as-replay", desc + "; a path through a zero-width range must be answered with the replay-attack error (86)"
+						}
+						return "", ""
+					}})
+			}
+		}
+	}
+	return cases
 }
